@@ -93,6 +93,7 @@ type checkCfg struct {
 	Stub        []string           `json:"stub"`
 	Assumptions []string           `json:"assumptions"`
 	NeedProbes  []string           `json:"need_probes"`
+	SeqSeeds    bool               `json:"sequential_seeds"`
 	Knobs       map[string]float64 `json:"knobs"`
 }
 
@@ -473,7 +474,12 @@ func cmdRun(args []string) int {
 	for i := 0; i < tc.Runs; i += tc.Batch {
 		var bs batch
 		for j := i; j < i+tc.Batch && j < tc.Runs; j++ {
-			bs.seeds = append(bs.seeds, mixSeed(base, *prop, j))
+			if cfg.SeqSeeds {
+				// enumeration: run j of this batch is case number base*2^32 + j
+				bs.seeds = append(bs.seeds, (base<<32)+uint64(j))
+			} else {
+				bs.seeds = append(bs.seeds, mixSeed(base, *prop, j))
+			}
 		}
 		batches = append(batches, bs)
 	}
